@@ -366,7 +366,22 @@ Qed.
 End Bridge.
 
 (** ---- the bridge on correspondence cases ---- *)
-Definition case_alts (x : case) := match x with Scan _ _ _ _ _ _ alts => alts end.
+Definition case_alts (x : case) := match x with Scan _ _ _ _ _ _ alts => alts | Upd _ _ _ => [] end.
+
+(** the model of [update_with] is the specified tracked set *)
+Lemma existsb_flat_map {A B} (f : B -> bool) (g : A -> list B) l :
+  existsb f (flat_map g l) = existsb (fun x => existsb f (g x)) l.
+Proof. induction l as [|x r IH]; [reflexivity|]. cbn [flat_map existsb]. rewrite existsb_app, IH. reflexivity. Qed.
+Lemma existsb_map {A B} (f : B -> bool) (g : A -> B) l : existsb f (map g l) = existsb (fun x => f (g x)) l.
+Proof. induction l as [|x r IH]; [reflexivity|]. cbn [map existsb]. rewrite IH. reflexivity. Qed.
+Lemma existsb_ext_eq {A} (f g : A -> bool) l : (forall x, f x = g x) -> existsb f l = existsb g l.
+Proof. intros E. induction l as [|x r IH]; [reflexivity|]. cbn [existsb]. rewrite E, IH. reflexivity. Qed.
+Lemma upd_pool_spec p nfs txs : upd_pool p nfs txs = spec_tracked_after p nfs txs.
+Proof.
+  unfold upd_pool, spec_tracked_after. f_equal. apply filter_ext. intros e. f_equal.
+  unfold spent_nfs, spent_in. rewrite existsb_flat_map. apply existsb_ext_eq. intros wt.
+  rewrite existsb_map. apply existsb_ext_eq. intros s. apply N.eqb_sym.
+Qed.
 
 Lemma wf_case_prior c prior keys nfs b o alts : wf_case (Scan c prior keys nfs b o alts) = true -> prior_ok prior.
 Proof.
@@ -380,7 +395,11 @@ Qed.
 Theorem bridge : forall x,
   wf_case x = true -> known_class x = 0 -> case_alts x = [] -> run_case x = true -> prop_case x = true.
 Proof.
-  intros [c prior keys nfs b o alts] W K A R. cbn [case_alts] in A. subst alts.
+  intros [c prior keys nfs b o alts | nfs txs after] W K A R.
+  2:{ cbn [run_case] in R. apply nfset_eqb_spec in R. subst after. cbn [prop_case].
+      apply forallb_forall. intros p _. apply nfl_eqb_spec.
+      rewrite <- upd_pool_spec. destruct p; reflexivity. }
+  cbn [case_alts] in A. subst alts.
   pose proof (wf_case_prior _ _ _ _ _ _ _ W) as PO.
   cbn [run_case] in R. apply res_eqb_spec in R. unfold scan_block_truth in R.
   cbn [prop_case]. rewrite andb_true_r. unfold check_scan.
